@@ -229,7 +229,7 @@ int cholnzcnt(int_t neqns, int_t *xadj, int_t *adjncy,
 	set[xsup] = parent;
     }
 
-    part_super_L[xsup] = neqns - xsup;
+    if ( neqns > 0 ) part_super_L[xsup] = neqns - xsup;
     
     /* ---------------------------------------------------------   
        USE WEIGHTS TO COMPUTE COLUMN (AND TOTAL) NONZERO COUNTS.   
